@@ -32,6 +32,9 @@ OF THIS SOFTWARE, EVEN IF ADVISED OF THE POSSIBILITY OF SUCH DAMAGE.
 #include "intrin_portable.h"
 #include "instruction.hpp"
 #include "program.hpp"
+#ifdef RANDOMX_VERIF
+#include "verif_hooks.hpp"
+#endif
 
 namespace randomx {
 
@@ -106,6 +109,9 @@ namespace randomx {
 	typedef void(BytecodeMachine::*InstructionGenBytecode)(RANDOMX_GEN_ARGS);
 
 	class BytecodeMachine {
+#ifdef RANDOMX_VERIF
+		friend struct randomx_verif::Access;
+#endif
 	public:
 		void beginCompilation(NativeRegisterFile& regFile) {
 			for (unsigned i = 0; i < RegistersCount; ++i) {
